@@ -177,8 +177,11 @@ def run(model, tier="quick"):
                   "status refresh visits every market (second refresh: every market with has_update)", ["set_market_status"])
     res.floor("set_market_status_implementations", idem_rule(model, res), 6)
     res.floor("pending_amount_stores", who_writes_pending(model, res), 4)
-    from .base_refs import write_gate
+    from .base_refs import write_gate, gate_coverage
     write_gate(res, model)
+    gate_coverage(res, model, "UniLpMarket", {"liquidity"},
+                  "the pool's current liquidity in the status row keeps the own liquidity of the start of the bar, and the share "
+                  "own/(pool+own) of this bar's fee is computed with a denominator that no longer contains what the position holds", floor=2)
     from ..rules.alias import loop_sharing_rule
     res.units["objects_built_before_a_loop_and_passed_inside"] = loop_sharing_rule(model, res, scope=() if res.prop == "C19" else ("demeter/core/", "demeter/broker/"))
     # constructors establish the relations between fields that the references above take for granted
